@@ -181,6 +181,26 @@ impl Pools {
             }
         }
     }
+    /// Lengths that occur as *inner* lengths of one another's plans: a prime p with the Rader inner length p-1, the
+    /// Bluestein inner lengths (next power of two and 3*2^k above 2p-1), small multiples of p and the halves of p-1 — so
+    /// that a request for one finds the other already in the planner's cache (history-dependent plans).
+    pub fn family(&self, rng: &mut Rng) -> Vec<usize> {
+        let p = loop {
+            let c = match rng.below(3) {
+                0 if !self.rader.is_empty() => *rng.pick(&self.rader),
+                1 if !self.blue.is_empty() => *rng.pick(&self.blue),
+                _ => *rng.pick(&[37usize, 41, 43, 47, 53, 59, 61, 67, 71, 73, 79, 83, 89, 97, 101, 127, 131, 149, 163, 167, 179, 193, 257, 359, 499, 643, 997]),
+            };
+            if c <= self.nmax {
+                break c;
+            }
+        };
+        let m = 2 * p - 1;
+        let mut v = vec![p - 1, p, 2 * p, 3 * p, 4 * p, (p - 1) / 2, 2 * (p - 1), m.next_power_of_two(), 3 * (m.div_ceil(3)).next_power_of_two()];
+        v.retain(|&x| x >= 2 && x <= self.nmax);
+        // the prime itself and its Rader inner length are always present and come first
+        v
+    }
     pub fn pick_chain(&self, rng: &mut Rng) -> usize {
         if rng.chance(0.7) && !self.lattice.is_empty() {
             *rng.pick(&self.lattice)
